@@ -58,7 +58,7 @@ func (propC06) Gen(seed uint64, tier string, idx int) any {
 	}
 	if r.Pct(2) {
 		// large, statistically uniform pictures (segment map corner cases, > 32768 tokens)
-		p.Img.Family = r.PickS("patch", "patch", "noise", "flat", "regions")
+		p.Img.Family = r.PickS("patch", "patch", "noise", "flat", "regions", "hole", "hole")
 		p.Img.W, p.Img.H = 16*r.Range(16, 40)-r.Intn(2), 16*r.Range(16, 40)-r.Intn(2)
 		p.Opt.Pass, p.Opt.TargetSize, p.Opt.TargetPSNR = -1, 0, 0
 	}
